@@ -26,7 +26,7 @@ ASSUMPTIONS = ['floats compared to 1e-6 relative (the mirrored optimiser traject
                'residual_mean on the scale of residual_std', 'island polarity class decided from the image with the forced '
                'rms by aegmon/refs/floodfill.py']
 MIN_REACH = {'source_finder:SourceFinder.find_sources_in_image': 1}
-MIN_COUNTERS = {'reused_finder_runs': 50, 'island_rows_compared_sign_symmetry': 30, 'rows_compared_sign_symmetry': 50, 'filter_sets_checked': 5, 'single_polarity_islands_compared': 20}
+MIN_COUNTERS = {'quantised_images': 3, 'pixels_exactly_on_a_clip_level': 20, 'reused_finder_runs': 50, 'island_rows_compared_sign_symmetry': 30, 'rows_compared_sign_symmetry': 50, 'filter_sets_checked': 5, 'single_polarity_islands_compared': 20}
 BATCHES_PER_JOB = 2
 KEY_MIXED = 'mixed-polarity-island'
 FLOATS = ['ra', 'dec', 'a', 'b', 'pa', 'err_ra', 'err_dec', 'err_peak_flux', 'err_int_flux', 'err_a', 'err_b', 'err_pa',
@@ -62,6 +62,9 @@ def cases(seed, tier):
             spec['sources'] += extra
         out.append({'kind': 'field', 'field': spec, 'aux': 'files' if i % 2 else 'forced', 'docov': bool(rng.random() < 0.6),
                     'mixed_stratum': mixed, 'bkg_gradient': [float(rng.uniform(-0.01, 0.01)), float(rng.uniform(-0.01, 0.01)), float(rng.uniform(-2, 2))]})
+        if i % 5 == 3:
+            out[-1]['quantised'] = True
+            out[-1]['aux'] = 'forced'
     return out
 
 
@@ -126,6 +129,12 @@ def run(case):
                 fits.PrimaryHDU(arr, header=h).writeto(os.path.join(sc, name + '.fits'), overwrite=True)
             aux_p = (os.path.join(sc, 'rms.fits'), os.path.join(sc, 'bkg.fits'))
             aux_n = (os.path.join(sc, 'rms.fits'), os.path.join(sc, 'nbkg.fits'))
+        if case.get('quantised'):
+            # pixel values on a grid of 1/4 (rms 1, clips 5 and 4): many pixels sit EXACTLY on the flood and seed levels, in
+            # both polarities - a tie must be decided the same way for +x and -x
+            data = np.round(data * 4.0) / 4.0
+            o.count('quantised_images')
+            o.count('pixels_exactly_on_a_clip_level', int(np.sum((np.abs(data) == 4.0) | (np.abs(data) == 5.0))))
         pos = os.path.join(sc, 'pos.fits')
         neg = os.path.join(sc, 'neg.fits')
         fits.PrimaryHDU(data.astype(np.float32), header=h).writeto(pos, overwrite=True)
